@@ -57,6 +57,7 @@ func scenC06(k *K) {
 	n := k.C.Range(1, 3)
 	c := k.NewCluster(ClusterCfg{N: n, Type: "keyvalue"})
 	k.F = swarmFaults(k, true)
+	c.FetchFailures()
 	nkeys := k.C.Range(1, len(c06Keys))
 	nops := k.C.Range(3, 14)
 	if Tier == "thorough" {
